@@ -20,6 +20,14 @@ class Infra(Exception):
     """Anything that is not a verdict about the code: exit 2."""
 
 
+class Crash(Exception):
+    """The driver process died while executing the code under test and a breadcrumb path dies again when it
+    is re-executed alone: that path is a reproduced failure of the real code."""
+    def __init__(self, found):
+        Exception.__init__(self, "driver crashed")
+        self.found = found     # list of (variant, path, stderr tail)
+
+
 def log(*a):
     print("[check]", *a, file=sys.stderr, flush=True)
 
@@ -178,11 +186,46 @@ class Ctx:
         r = subprocess.run(cmd, capture_output=True, text=True, timeout=timeout,
                            env=dict(os.environ, GOMAXPROCS=str(NCPU)))
         if r.returncode != 0:
+            self.crash_triage(driver, r.stderr)
             raise Infra("driver %s failed (rc %d): %s" % (driver, r.returncode, r.stderr[-2000:]))
         try:
             return json.loads(r.stdout.strip().split("\n")[-1])
         except Exception:
             raise Infra("driver %s printed no summary: %s" % (driver, r.stdout[-500:]))
+
+    def crash_triage(self, driver, stderr):
+        """the driver died (Go `fatal error`, e.g. a stack overflow in a structure that became cyclic): re-execute
+        every breadcrumb path alone in a fresh process; the ones that die again are reproduced failures"""
+        if "fatal error" not in stderr and "goroutine stack exceeds" not in stderr:
+            return
+        import glob
+        found = []
+        for c in sorted(glob.glob(os.path.join(self.scratch, "t", "*.crumb"))):
+            txt = open(c).read().strip()
+            if not txt:
+                continue
+            try:
+                path = json.loads(txt) if txt.startswith("[") else [json.loads(l) for l in txt.split("\n") if l.strip()]
+            except Exception:
+                continue
+            variant = "lin" if ".lin." in c else ("abc" if ".abc." in c else "tree")
+            pf = tempfile.mktemp(prefix="crumb-", suffix=".json", dir=self.scratch)
+            with open(pf, "w") as f:
+                json.dump(path, f)
+            died = 0
+            for attempt in range(2):
+                try:
+                    rr = subprocess.run([self.drive_bin, "-p", driver, "-var", variant, "-replay", "@" + pf],
+                                        capture_output=True, text=True, timeout=120)
+                except subprocess.TimeoutExpired:
+                    break
+                if rr.returncode != 0 and ("fatal error" in rr.stderr or "goroutine stack exceeds" in rr.stderr):
+                    died += 1
+                    tail = [l for l in rr.stderr.split("\n") if "fatal error" in l or "stack exceeds" in l][:2]
+            if died == 2:
+                found.append((variant, path, "; ".join(tail)))
+        if found:
+            raise Crash(found)
 
     def replay_path(self, driver, variant, path, out=None):
         pf = tempfile.mktemp(prefix="path-", suffix=".json", dir=self.scratch)
